@@ -109,6 +109,16 @@ check("C13", "model_checking",
       "Trusted: symbol-to-byte mapping, TLC; template literal segments are escaped by the harness. Unrepresentable texts (delimiter without escape) are skipped and counted.",
       "TLA+ escape/unescape theorem (TLC) + exhaustive literal replay + TLA+ Lang oracle for templates", "DESIGN.md section 4 C13")
 
+check("C18", "model_checking",
+      "spec/StCmd.tla: an edit list (all assignments - juxtaposed, ':' or '=', '*:' , '*k:', computed '&name=' - or all modifications + += -= -) "
+      "over tables of names (CJK, latin, namespaced with ':', quoted with blank or trailing digit) and values (ints, floats, d1 dice, "
+      "parenthesised expressions), with blanks and the separators '', ' ', ','; Spell gives an accepted spelling, Expected the callback sequence. "
+      "TLC enumerates all single edits and strided families of pairs (and triples), the harness runs every spelling (followed by nothing or by "
+      "non-edit text) with a recording callback and compares count, order, names byte for byte, values, sign normalisation, operators, the "
+      "expression text and the rest text.",
+      "Trusted: symbolic-name substitution, value projection. The st value grammar is exercised through the value table, not through arbitrary expressions.",
+      "TLA+ spelling/expectation spec + TLC-enumerated replay of edit lists on the real parser/VM", "DESIGN.md section 4 C18")
+
 NOT_YET = "check under construction in this build phase (planned in DESIGN.md section 4); not yet claimed"
 
 m = {
